@@ -490,7 +490,9 @@ def compare(prop, res, shape, hist, impl, answers, want):
                 )
                 return  # later steps of a history that already diverged are noise
         elif (ires, ipol) != (mres, mpol):
-            return
+            # the specification is silent about this call (it raised): go on - what the reads after it show is judged
+            # (a call that raises must not leave the stored rules out of order / changed)
+            pass
         prev_pol = ipol
 
 
